@@ -17,6 +17,15 @@ CHECKS = {
     ),
 }
 
+CHECKS["C15"] = dict(
+    category="model_checking",
+    text="Placement.tla models the uid/line placement scheme of sort_new_items, merge and the writer's ordering; TLC checks for every bounded history that it refines the ideal relation of the property (placed order stable, new elements directly after the last placed element of their kind), that the uid compaction keeps this true for unbounded histories (small-uid configuration, 118k states), and finds the expected overflow counterexamples for the pinned algorithm with 5-bit uids. Every transition of the bounded graph (incl. states straddling the real 2^30 compaction threshold) is replayed on real models through the public API, and random histories with real loads, merges, pushes and up to 200 consecutive sort_new_items calls are validated against the specification by TLC. A difference from the implementation-shaped model is only reported as a violation if the ideal relation (Trace_PlacementIdeal, written orders only) rejects what was observed.",
+    design_ref="DESIGN.md §4.6, §6 C15",
+    note="Model covers the 20 list kinds and comments of one MODULE (not the optional singletons, IF_DATA, USER_RIGHTS); bounded histories for the exhaustive part; comment uids inferred; trusts TLC and the harness projection (written /begin sequence, public uid/line fields).",
+    technique="TLA+ spec (Placement.tla) model-checked with TLC against the ideal relation; TLC-generated transitions replayed into the real code; recorded histories validated against Trace_Placement.tla / Trace_PlacementIdeal.tla",
+    engine="tlc+replay",
+)
+
 PENDING = "check not built yet in this round; planned per DESIGN.md §6 (no claim made until the TLA+ module and its binding exist)"
 NOT_APPLICABLE = {}
 
